@@ -83,65 +83,9 @@ theorem lastSeg_of_noNl (p : Text) (h : countNl p = 0) : lastSeg p = p := by
     have h0 : countNl cs = 0 := by omega
     simp [lastSeg, h0, hc]
 
-/-- Byte columns versus character columns: same line; the column is too large by exactly
-(bytes − characters) of the text since the last line feed. -/
-theorem advanceW_vs_char (lc : Nat × Nat) (p : Text) :
-    (advanceWAll utf8Size lc p).1 = (advanceAll lc p).1 ∧
-    (advanceWAll utf8Size lc p).2 + (lastSeg p).length = (advanceAll lc p).2 + utf8Len (lastSeg p) := by
-  unfold advanceAll
-  rw [advanceWAll_eq, advanceWAll_eq]
-  refine ⟨rfl, ?_⟩
-  by_cases h0 : countNl p = 0
-  · simp [h0, lastSeg_of_noNl p h0, lenW_one, utf8Len]; omega
-  · simp [h0, lenW_one, utf8Len]; omega
-
-theorem rfindNl_spec (p : Text) (h : countNl p ≠ 0) :
-    ∃ i, rfindNl p = some i ∧ i + utf8Len (lastSeg p) + 1 = utf8Len p := by
-  induction p with
-  | nil => simp [countNl] at h
-  | cons c cs ih =>
-    by_cases h0 : countNl cs = 0
-    · have hc : c = 10 := by
-        simp only [countNl] at h
-        by_cases hc : c = 10
-        · exact hc
-        · simp [hc] at h; omega
-      have hnone : rfindNl cs = none := by
-        clear ih h
-        induction cs with
-        | nil => rfl
-        | cons d ds ihd =>
-          simp only [countNl] at h0
-          have hd : d ≠ 10 := by intro hd; simp [hd] at h0
-          have : countNl ds = 0 := by omega
-          simp [rfindNl, ihd this, hd]
-      refine ⟨0, ?_, ?_⟩
-      · simp [rfindNl, hnone, hc]
-      · simp [lastSeg, h0, hc, utf8Len_cons, utf8Size]; omega
-    · obtain ⟨i, hi, hlen⟩ := ih h0
-      refine ⟨utf8Size c + i, ?_, ?_⟩
-      · simp [rfindNl, hi]
-      · simp [lastSeg, h0, utf8Len_cons]; omega
-
-theorem stepCoded_eq (lc : Nat × Nat) (p : Text) : stepCoded lc p = advanceWAll utf8Size lc p := by
+theorem stepCoded_eq (lc : Nat × Nat) (p : Text) : stepCoded lc p = advanceWAll (fun _ => 1) lc p := by
   rw [advanceWAll_eq]
   unfold stepCoded
-  by_cases h0 : countNl p = 0
-  · simp [h0, utf8Len]
-  · obtain ⟨i, hi, hlen⟩ := rfindNl_spec p h0
-    simp [h0, hi]
-    unfold utf8Len at hlen ⊢
-    omega
-
-/-- In the branch `n_lines != 0` the subtraction `prev_text.len() - rfind` cannot underflow. -/
-theorem stepCoded_no_underflow (p : Text) (h : countNl p ≠ 0) :
-    (rfindNl p).getD 0 < utf8Len p := by
-  obtain ⟨i, hi, hlen⟩ := rfindNl_spec p h
-  simp [hi]; omega
-
-theorem stepFixed_eq (lc : Nat × Nat) (p : Text) : stepFixed lc p = advanceWAll (fun _ => 1) lc p := by
-  rw [advanceWAll_eq]
-  unfold stepFixed
   simp [lenW_one]
 
 theorem lineColFrom_append (pre rest : Text) (k : Nat) (lc : Nat × Nat) :
